@@ -250,6 +250,7 @@ def main(rep: Report, replay: dict | None) -> None:
         from .. import draw_model
 
         draw_model.check(rep)
+        draw_model.check_old(rep)
         validation_table(rep)
         rng = random.Random(rep.seed * 977 + 3)
         cases = new_cases(rng, rep.tier) + old_cases(rng, rep.tier)
